@@ -308,7 +308,7 @@ class UnitBuild:
             for rw in ex.get("rewrites", []):
                 if "regex" in rw:       # syntactic pattern (robust against harmless edits of the surrounding text)
                     text, n = re.subn(rw["regex"], rw["to"], text)
-                    if n < 1:
+                    if n < 1 and not rw.get("optional"):
                         raise Undecided("extract rewrite must-fire failed in %s: /%s/" % (ex["file"], rw["regex"][:60]))
                     continue
                 if text.count(rw["from"]) < 1:
